@@ -28,7 +28,7 @@ PRELUDE = r"""
 local p = {}
 local function dump(t)
   local out = {}
-  for k, v in pairs(t) do out[#out + 1] = type(k) .. "\31" .. tostring(k) .. "\31" .. tostring(v) end
+  for k, v in pairs(t) do out[#out + 1] = type(k) .. "\31" .. tostring(k) .. "\31" .. tostring(v) .. "\31" .. #tostring(v) end
   table.sort(out)
   return table.concat(out, "\30")
 end
@@ -44,6 +44,7 @@ function p.%(fn)s(frame)
     .. "\29T" .. (parent and parent:getTitle() or "\31nil")
     .. "\29P" .. (parent and dump(parent.args) or "")
     .. "\29R" .. frame:preprocess(%(frag)s)
+    .. "\29L" .. #frame:preprocess(%(frag)s)
     .. "\29E" .. frame:expandTemplate{title = "T1", args = {%(s1)s, x = %(s2)s}}
     .. "\29F" .. frame:callParserFunction("#if", %(s1)s, %(s2)s, "n")
     .. "\29"
@@ -63,12 +64,14 @@ def amap(bindings):
     return {key_of(b["key"]): tr.text(b["val"]) for b in bindings}
 
 
-def parse_dump(s):
+def parse_dump(s, lens=None):
     m = {}
     if s:
         for rec in s.split(RS):
-            t, k, v = rec.split(US)
+            t, k, v, n = rec.split(US)
             m[int(float(k)) if t == "number" else k] = v
+            if lens is not None:
+                lens.append((k, v, int(n)))
     return m
 
 
@@ -130,10 +133,10 @@ def judge(o: Outcome, c, e, ob):
     raw = ob["raw"]
     pre, post = ("<", ">") if c["depth"] > 0 else ("", "")
     parts = raw.split(SEP)
-    if len(parts) != 10 or parts[0] != pre or parts[9] != post:
+    if len(parts) != 11 or parts[0] != pre or parts[10] != post:
         o.violation({**case, "got": raw[:400]}, "the string returned by the module does not replace the #invoke call verbatim", cls="envelope")
         return
-    got = {p[0]: p[1:] for p in parts[1:9]}
+    got = {p[0]: p[1:] for p in parts[1:10]}
     exp_args = amap(e["args"])
     a1v, a2v = exp_args.get(1), exp_args.get(2)
     pexp = amap(e["pargs"]) if e["hasParent"] else {}
@@ -147,6 +150,17 @@ def judge(o: Outcome, c, e, ob):
         ("frame:expandTemplate", got["E"], tr.text(e["et"]), ob["m_et"]),
         ("frame:callParserFunction", got["F"], tr.text(e["pf"]), ob["m_pf"]),
     ]
+    # what the module holds is what it returns: the byte lengths measured inside Lua equal those of the
+    # returned text (an internal placeholder standing for markup would be shorter / longer)
+    lens = []
+    parse_dump(got["A"], lens)
+    parse_dump(got["P"], lens)
+    lens.append(("preprocess", got["R"], int(got["L"])))
+    for k, v, n in lens:
+        if len(v.encode("utf-8")) != n:
+            o.violation({**case, "key": k, "returned": v, "length_in_lua": n},
+                        f"the value of {k!r} held by the module has {n} bytes, the text it returns ({v!r}) has {len(v.encode('utf-8'))}: Lua saw something else than the expanded argument", cls="lua-length")
+            break
     for what, g, x, meta in checks:
         if what == "parent args" and e["hasParent"]:
             x = dict(x)
